@@ -20,6 +20,7 @@ type Pkg struct {
 
 	DepFunc    int  `json:"dep_func,omitempty"`   // 0: F not deprecated; 1: deprecated; 2: same-length non-marker comment
 	DepMethod  int  `json:"dep_method,omitempty"` // method T.M: 0 not deprecated; 1 deprecated; 2 same-length non-marker comment
+	IgnoreU    bool `json:"ignore_u1000,omitempty"` // a //lint:ignore U1000 directive on a line that declares several objects (two variables; a function with a parameter)
 	RecvMix    bool `json:"recvmix,omitempty"`    // with Test: the in-package test file adds a method with another receiver name (ST1016 only in the test variant) and the main file carries a //lint:ignore ST1016 directive
 	Pure       bool `json:"pure,omitempty"`       // Pure has no side effect (purity fact)
 	NonNil     bool `json:"nonnil,omitempty"`     // Mk never returns nil (nilness fact)
@@ -167,6 +168,11 @@ func (m *Mod) renderPkg(i int, out map[string]string) {
 		w("func unusedFunc() int { return 7 }\n\n")
 	}
 	w("func helper() int { return 3 }\n\n")
+	if p.IgnoreU {
+		w("//lint:ignore U1000 generated exception\nvar spareA, spareB int\n\n")
+		w("//lint:ignore U1000 generated exception\nfunc spareFunc(n int) int { return n + 1 }\n\n")
+		w("var reallyUnused int\n\n")
+	}
 	if !p.Test {
 		// without the in-package test something else must use helper in some
 		// configurations: leave it unused on purpose (U1000 depends on -tests)
@@ -276,6 +282,7 @@ func Generate(r *Rng, npkg int, shape string, tests bool) *Mod {
 			Ignore:     r.N(4),
 			Initialism: r.P(300),
 			RangeInt:   r.P(150),
+			IgnoreU:    r.P(250),
 			TagFile:    r.P(200),
 			OSFiles:    r.P(200),
 		}
